@@ -15,11 +15,12 @@
     (`mps2d.contract(tn, start=-1, stop=0, step=-1)`, then `inner_product(tn[:, 0], ket) * mult`; `Color666Tn.tnValue`)
     returns that value.
 
-  STATED, NOT PROVED:
-  * `color666_tn_values` — for the three logical variants `g ∈ {f·X̄, f·X̄·Z̄, f·Z̄}` the decoder reuses the ket of the
-    sample's own network: `cosetValue (colorTn L d f) (colorTn L d g) = .ok (cosetProb d (stabilizers L) g)`.  It follows
-    from `color666_tn_value` for `g` once `colorTn L d g` and `colorTn L d f` are shown to agree in every column `≥ 1`
-    (the logical operators act on column 0 only); the harness compares all four values (`tnvalues`) with the exact spec.
+  STATED, NOT PROVED: nothing in this file.  (Audit note: an earlier version listed here the statement about the three
+  logical variants `g ∈ {f·X̄, f·X̄·Z̄, f·Z̄}`, for which the decoder reuses the ket of the sample's own network,
+  `cosetValue (colorTn L d f) (colorTn L d g) = .ok (cosetProb d (stabilizers L) g)`.  It is PROVED for all odd `L ≥ 3` in
+  Props/C10/Color666Values.lean: `color666_variant_columns` (the networks agree in every column `≥ 1`; the logical
+  operators act on lattice column 0 only), `color666_shared_ket`, `color666_tn_variant_value` (exactly the statement
+  above) and `color666_tn_values` / `color666_tn_values_list` (the four values are `cosetProbs4`).)
   What is NOT a theorem: that the real float / mpf contraction equals the exact value (explored numerically).
 -/
 import QecVerif.Lemmas.Color666Tn
